@@ -222,13 +222,20 @@ def model_pressure(p):
         return []
     if n == 1:
         return [{G}]
-    tot = Fraction(p[-1]) - Fraction(p[0])
+    # the overall direction: sign of the mean step over the pairs whose two members are present
+    steps = [Fraction(b) - Fraction(a) for a, b in zip(p, p[1:]) if not miss(a) and not miss(b)]
+    tot = sum(steps, Fraction(0))
     if tot == 0:
         return None
     d = 1 if tot > 0 else -1
-    out = [{G}]
-    for i in range(1, n):
-        out.append({S} if d * (p[i] - p[i - 1]) <= 0 else {G})
+    out = []
+    for i in range(n):
+        if miss(p[i]):
+            out.append({G, M, U})  # the statement is silent on how a missing pressure itself is flagged
+        elif i == 0 or miss(p[i - 1]):
+            out.append({G})  # no previous point to move relative to
+        else:
+            out.append({S} if d * (p[i] - p[i - 1]) <= 0 else {G})
     return out
 
 
